@@ -420,7 +420,19 @@ func (st *simpleStack) serve(client netip.Addr, req *dns.Msg) (resp *dns.Msg, er
 	)
 	err = st.h.ServeDNS(context.Background(), rw, req.Copy())
 
-	return rw.Msg(), err
+	return taken(rw.Msg()), err
+}
+
+// taken returns what a transport would have sent and then treats the written
+// message as the servers' writers do: as their own, to be changed in place.
+func taken(m *dns.Msg) (sent *dns.Msg) {
+	if m == nil {
+		return nil
+	}
+	sent = world.DeepCopy(m)
+	world.Scribble(m)
+
+	return sent
 }
 
 func (st *simpleStack) fresh() stack     { return newSimple(st.minTTL, st.override) }
@@ -456,8 +468,9 @@ func newECS(minTTL time.Duration, override bool) (st *ecsStack) {
 
 func (st *ecsStack) serve(client netip.Addr, req *dns.Msg) (resp *dns.Msg, err error) {
 	out, err := st.w.Serve(context.Background(), &world.Request{
-		Remote: netip.AddrPortFrom(client, 3333),
-		Msg:    req.Copy(),
+		Remote:   netip.AddrPortFrom(client, 3333),
+		Msg:      req.Copy(),
+		Scribble: true,
 	})
 	if out != nil && len(out.Msgs) > 1 {
 		return nil, fmt.Errorf("%d responses written", len(out.Msgs))
@@ -534,7 +547,7 @@ func (st *mwStack) serve(client netip.Addr, req *dns.Msg) (resp *dns.Msg, err er
 	)
 	err = st.h.ServeDNS(agd.ContextWithRequestInfo(context.Background(), ri), rw, req)
 
-	return rw.Msg(), err
+	return taken(rw.Msg()), err
 }
 
 func (st *mwStack) fresh() stack {
